@@ -10,6 +10,7 @@ VOCAB = [
     "T154N-R9iW", "to sole", "Township I5l North, Range OO7 West", "T|5|N-R|7W",
     "Sec", "Sec.", "Section", "Sections", "§", "Sec 14", "Sec 14:", "Section 1 - 3:", "Secs 5, 6 and 9", "Sec 100", "Sec 0",
     "Section 15, T154N-R97W", "of Section 4 of", "said Section", "within Section 9",
+    "Sections 9 - 7, 5 - 3:", "Secs 12 thru 10 and 6 thru 4", "Sec 3 - 1",
     ":", ",", ";", "-", "–", ".", "(", ")", "[", "]", "/", "&", "and", "of", "the", "in", "through", "thru", "to",
     "NE/4", "NE¼", "N½", "N/2", "SW/4NE/4", "S2N2", "Northeast Quarter", "North Half of the South Half", "ALL", "All of",
     "Lot 1", "Lots 1 - 3", "Lots 1, 2, 5", "Lot 4 (38.12)", "Lot 4 [38.12]", "N/2 of Lot 1", "L1", "Lots 5 - 3", "Lot",
@@ -61,7 +62,12 @@ def rand_config(rng, for_tract=False):
     if rng.random() < 0.2:
         parts.append(rng.choice(["e", "w"]))
     rng.shuffle(parts)
-    return ",".join(parts) or None
+    if not parts:
+        return None if rng.random() < 0.9 else rng.choice(["", " ", "\n"])      # (an empty / blank config text is no setting)
+    # "settings separated by comma (or semicolon), spaces optional": blanks and line breaks anywhere between the names
+    sep = rng.choice([",", ",", ",", ", ", " , ", ";", ",\n", " ;  "])
+    pad = rng.choice(["", "", "", " ", "\n", "\t"])
+    return rng.choice(["", "", " "]) + sep.join(parts) + pad
 
 
 def rand_text(rng):
